@@ -90,7 +90,23 @@ pub fn record_cnf(args: &Args) {
             }
         };
         let nv = cnf.num_vars();
-        out.emit(json!({"ev": "cnf_new", "in": raw_json(&c), "out": stored_json(&cnf), "nv": nv}));
+        let mut ev_new = json!({"ev": "cnf_new", "in": raw_json(&c), "out": stored_json(&cnf), "nv": nv});
+        // the other public constructor: the same clause list written as DIMACS text (needs at least one variable and one clause, no
+        // empty clause) must give the same clause sets
+        if nv > 0 && !c.is_empty() && c.iter().all(|cl| !cl.is_empty()) {
+            let mut text = format!("p cnf {} {}\n", nv, c.len());
+            for cl in &c {
+                for (v, p) in cl {
+                    text.push_str(&format!("{} ", if *p { *v as i64 + 1 } else { -(*v as i64 + 1) }));
+                }
+                text.push_str("0\n");
+            }
+            match guarded(|| Cnf::from_dimacs(&text)) {
+                Ok(c2) => ev_new["via_dimacs"] = stored_json(&c2),
+                Err(m) => ev_new["via_dimacs_panic"] = json!(m),
+            }
+        }
+        out.emit(ev_new);
         // ---- eval on every total assignment (small) / a sample
         for _ in 0..4 {
             let asg = rng.below(1 << nv.max(1));
@@ -161,6 +177,7 @@ pub fn record_cnf(args: &Args) {
             let mut h = cnf.hasher().clone();
             let mut m = PartialModel::new(nv);
             let mut saved: Vec<PartialModel> = vec![];
+            let mut bursted = false;
             for _ in 0..14 {
                 match rng.below(4) {
                     0 => {
@@ -183,6 +200,38 @@ pub fn record_cnf(args: &Args) {
                         h.decide(l);
                         m.set(l.label(), p);
                         out.emit(json!({"ev": "h_decide", "lit": lit_i(&l)}));
+                    }
+                }
+                // a long fuse: once per hasher, 2^8 - 1, 2^16 - 1 or 2^16 rounds of push / decide / pop that come back to this very state
+                // (a level left that many times: a per-level generation counter that is too narrow wraps around)
+                if !bursted && rng.chance(1, 6) {
+                    let unset: Vec<usize> = (0..nv).filter(|v| !m.is_set(VarLabel::new_usize(*v))).collect();
+                    if !unset.is_empty() {
+                        bursted = true;
+                        let n = *rng.pick(&[255usize, 256, 65535, 65536]);
+                        let (v, p) = (*rng.pick(&unset), rng.coin());
+                        let l = Literal::new(VarLabel::new_usize(v), p);
+                        // one round with another literal first (its clauses are satisfied at this level and then left behind), then
+                        // n rounds that never touch those clauses
+                        let others: Vec<usize> = unset.iter().cloned().filter(|x| *x != v).collect();
+                        let y = if others.is_empty() { None } else { Some(Literal::new(VarLabel::new_usize(*rng.pick(&others)), rng.coin())) };
+                        let r = guarded(|| {
+                            if let Some(y) = y {
+                                h.push();
+                                h.decide(y);
+                                h.pop();
+                            }
+                            for _ in 0..n {
+                                h.push();
+                                h.decide(l);
+                                h.pop();
+                            }
+                        });
+                        let mut ev = json!({"ev": "h_burst", "n": n, "lit": lit_i(&l), "first": y.map(|y| lit_i(&y)).unwrap_or(0)});
+                        if let Err(msg) = r {
+                            ev["panic"] = json!(msg);
+                        }
+                        out.emit(ev);
                     }
                 }
                 emit_guarded(&mut out, json!({"ev": "h_hash", "pm": pm_json(&m, nv)}), |e| {
@@ -473,6 +522,15 @@ pub fn record_orders(args: &Args) {
         }
         if c.is_empty() {
             c.push(vec![(rng.below(nmax), rng.coin())]);
+        }
+        if round % 5 == 4 {
+            // WIDE: the same shape over labels scattered up to 130, with pairs of labels congruent modulo 64 (a clause and its copy
+            // shifted by 64 have the same "shape modulo 64"): orders over 100+ variables, dtrees whose leaves must still be exactly the clauses
+            let shift: Vec<usize> = (0..nmax + 3).map(|v| if v % 2 == 0 { v } else { v + 64 * (1 + v % 2) - 1 + rng.below(2) }).collect();
+            let mut wide: Vec<Vec<(usize, bool)>> = c.iter().map(|cl| cl.iter().map(|(v, p)| (shift[*v], *p)).collect()).collect();
+            let copy: Vec<Vec<(usize, bool)>> = c.iter().take(2).map(|cl| cl.iter().map(|(v, p)| (*v + 64, *p)).collect()).collect();
+            wide.extend(copy);
+            c = wide;
         }
         let cnf = mk_cnf(&c);
         let nv = cnf.num_vars();
@@ -879,7 +937,12 @@ fn sr3_common<T: Semiring + PartialEq>(ev: &mut Value, v: &[T], r: impl Fn(T, i3
     ev["laws"]["sub_add"] = json!([r(sub(a, b) + b, 1), r(a, 1)]);
 }
 
-fn lattice<T: Semiring + JoinSemilattice + MeetSemilattice + BBSemiring + PartialEq + PartialOrd>(
+/// the ring-side twin of `choose` (trait BBRing; reached here through the EdgeboundingRing bound, as generic client code would)
+fn ring_choose<T: rsdd::util::semirings::EdgeboundingRing>(a: &T, b: &T) -> T {
+    rsdd::util::semirings::BBRing::choose(a, b)
+}
+
+fn lattice<T: Semiring + JoinSemilattice + MeetSemilattice + BBSemiring + rsdd::util::semirings::EdgeboundingRing + PartialEq + PartialOrd>(
     ev: &mut Value,
     v: &[T],
     r: impl Fn(T, i32) -> Value,
@@ -889,6 +952,8 @@ fn lattice<T: Semiring + JoinSemilattice + MeetSemilattice + BBSemiring + Partia
     ev["meet"] = r(MeetSemilattice::meet(&a, &b), 1);
     ev["choose"] = r(BBSemiring::choose(&a, &b), 1);
     ev["choose_ba"] = r(BBSemiring::choose(&b, &a), 1);
+    ev["rchoose"] = r(ring_choose(&a, &b), 1);
+    ev["rchoose_ba"] = r(ring_choose(&b, &a), 1);
     ev["le"] = json!(a <= b);
     ev["ge"] = json!(a >= b);
     let j = |x: &T, y: &T| JoinSemilattice::join(x, y);
